@@ -1,6 +1,8 @@
 import GroupbyVerif.Model.Spec
 import GroupbyVerif.Model.GenTable
 import GroupbyVerif.Model.GroupBy
+import GroupbyVerif.Model.RowSel
+import GroupbyVerif.Generated.Constants
 
 /-!
 # Line protocol: parsing and printing (import-free)
@@ -29,6 +31,18 @@ def parseNat (s : String) : Option Nat := s.toNat?
 def splitComma (s : String) : List String := if s.isEmpty then [] else s.splitOn ","
 
 def parseIntList (s : String) : Option (List Int) := (splitComma s).mapM parseInt
+
+/-- comma list where an item may be `v*k` (value repeated k times) -/
+def parseIntListRle (s : String) : Option (List Int) := do
+  let parts ← (splitComma s).mapM fun t =>
+    match t.splitOn "*" with
+    | [v] => (parseInt v).map fun x => [x]
+    | [v, k] => do
+      let x ← parseInt v
+      let n ← parseNat k
+      pure (List.replicate n x)
+    | _ => none
+  pure parts.flatten
 
 def parseNatList (s : String) : Option (List Nat) := (splitComma s).mapM parseNat
 
